@@ -3,7 +3,7 @@
    (checkRangeRightBound returns the accumulated res; index bounds are never rewritten); Refuted.v shows that
    both deviations of today's code break them. *)
 From Coq Require Import ZArith List Bool Arith Sorted.
-From OG Require Import C20.Model C20.Proofs C20.Cover C20.ScanProofs C20.TwoSided C20.NullOrder C20.MinMax C20.StrOps C20.Multi.
+From OG Require Import C20.Model C20.Proofs C20.Cover C20.ScanProofs C20.TwoSided C20.NullOrder C20.MinMax C20.StrOps C20.Multi C20.Grouped.
 Import ListNotations.
 
 (* mark_sound: CheckInRange over a hyper-rectangle never says "cannot be true" when some row of the rectangle
@@ -31,7 +31,7 @@ Theorem C20_rect_cover : forall L R tys ts,
   length R = length L -> length ts = length L -> (length L <= length tys)%nat ->
   lex_le L (map kb ts) -> lex_le (map kb ts) R ->
   can_t (ciar repaired (fun rs => mkM (in_rectb ts rs) true) tys L R true true []) = true.
-Proof. exact rect_cover. Qed.
+Proof. exact Cover.rect_cover. Qed.
 Print Assumptions C20_rect_cover.
 
 (* OR-ing a call-back's marks over the cover is sound (with every early exit), whatever the call-back *)
@@ -41,7 +41,7 @@ Theorem C20_any_range_sound : forall cb L tys R lb rb pre ts,
   (rb = true -> lex_le (map kb ts) R) ->
   (forall rs, Forall2 inrect rs ts -> can_t (cb (pre ++ rs)) = true) ->
   can_t (ciar repaired cb tys L R lb rb pre) = true.
-Proof. exact ciar_sound. Qed.
+Proof. exact Cover.ciar_sound. Qed.
 Print Assumptions C20_any_range_sound.
 
 (* C20_may_be_sound: for every sorted key list cut into non-empty fragments of any sizes, every accepted condition
@@ -202,6 +202,42 @@ Theorem C20_attached_reader_delivers : forall files batch i f j,
 Proof. exact attached_reader_delivers. Qed.
 Print Assumptions C20_attached_reader_delivers.
 
+(* ---------- the key-grouped index of the production attached flush (ColumnStoreTSSPWriter) ----------
+   one index row per key group in KeySorter order (a null strictly before every value), no trailing row, a null cell read
+   as -infinity, the row behind the record as +infinity; a fragment is a key group, getSegmentRanges maps the kept groups
+   to the segments that hold their rows (cnts = segments per group). *)
+
+(* the cover lemma for ANY reading of a null cell: a null satisfies no comparison, so where it is put does not matter *)
+Theorem C20_may_be_sound_any_null_reading : forall (rd : option Z -> bound), (forall z, rd (Some z) = Fin z) ->
+  forall isint nonkey c rpn row L R,
+  compile isint c = Some rpn -> eval_cond nonkey c row = true ->
+  length L = used_keys rpn -> length R = used_keys rpn ->
+  (used_keys rpn <= length row)%nat -> (used_keys rpn <= length isint)%nat ->
+  lex_le L (map rd (firstn (used_keys rpn) row)) -> lex_le (map rd (firstn (used_keys rpn) row)) R ->
+  may_be repaired isint rpn L R = true.
+Proof. exact Grouped.may_be_sound_lex. Qed.
+Print Assumptions C20_may_be_sound_any_null_reading.
+
+Theorem C20_grouped_scan_sound : forall isint nonkey c rpn idx nk coarse minmarks i,
+  compile isint c = Some rpn -> ks_sorted idx -> Forall (fun k => length k = nk) idx ->
+  (used_keys rpn <= nk)%nat -> (used_keys rpn <= length isint)%nat ->
+  (2 <= coarse)%nat -> (i < length idx)%nat ->
+  eval_cond nonkey c (nth i idx []) = true ->
+  exists rs, scan_g isint rpn idx coarse minmarks = ScanOk rs /\ covered i rs = true.
+Proof. exact scan_g_sound. Qed.
+Print Assumptions C20_grouped_scan_sound.
+
+(* end to end: every SEGMENT of a key group whose key satisfies the condition lies in a segment range handed to the reader *)
+Theorem C20_grouped_index_sound : forall isint nonkey c rpn idx cnts nk coarse minmarks i sg,
+  compile isint c = Some rpn -> ks_sorted idx -> Forall (fun k => length k = nk) idx ->
+  (used_keys rpn <= nk)%nat -> (used_keys rpn <= length isint)%nat ->
+  (2 <= coarse)%nat -> (i < length idx)%nat ->
+  eval_cond nonkey c (nth i idx []) = true ->
+  (sum (firstn i cnts) <= sg)%nat -> (sg < sum (firstn (S i) cnts))%nat ->
+  exists rs, scan_g isint rpn idx coarse minmarks = ScanOk rs /\ covered sg (seg_ranges cnts rs) = true.
+Proof. exact grouped_index_sound. Qed.
+Print Assumptions C20_grouped_index_sound.
+
 (* ---------- the hypotheses are satisfiable: the refutation witnesses of Refuted.v, under the repaired model ---------- *)
 Open Scope Z_scope.
 Definition ex_keys : list key := [[Some 3; Some 2]; [Some 3; Some 5]; [Some 4; Some 0]; [Some 4; Some 1]; [Some 4; None]].
@@ -267,3 +303,16 @@ Example C20_example_attached_reader :
   delivered files None = [(0, [(0, 2)]); (2, [(2, 3)])]%nat /\
   drain 4 files 0 (Some 1%nat) = [[(0, [(0, 2)])]; [(2, [(2, 3)])]]%nat.
 Proof. split; vm_compute; reflexivity. Qed.
+
+(* key-grouped index (bool, string by rank: '' = 0, 'B' = 2, 'C' = 3): groups (null,'B') (null,'C') (false,null) (false,'')
+   (true,''); the second group spans two segments; k1 > 'B' keeps group 1 and its segments 1..2 *)
+Example C20_example_grouped :
+  let idx : list key := [[None; Some 2]; [None; Some 3]; [Some 0; None]; [Some 0; Some 0]; [Some 1; Some 0]] in
+  ks_sorted idx /\
+  exists rpn, compile [false; false] (CAtom 1 Cgt 2) = Some rpn /\
+    exists rs, scan_g [false; false] rpn idx 8 0 = ScanOk rs /\ covered 1 rs = true /\
+               covered 1 (seg_ranges [1; 2; 1; 1; 1]%nat rs) = true /\ covered 2 (seg_ranges [1; 2; 1; 1; 1]%nat rs) = true.
+Proof.
+  split; [apply ks_sortedb_true; vm_compute; reflexivity|].
+  eexists. split; [vm_compute; reflexivity|]. eexists. split; [vm_compute; reflexivity|]. repeat split; vm_compute; reflexivity.
+Qed.
